@@ -135,36 +135,25 @@ fn reachable_all(files: &[Vec<(u8, bool)>]) -> bool {
     seen.iter().all(|b| *b)
 }
 
-/// every alternates file content for one node: ordered lists of <= max distinct targets, each target abs or rel
-fn node_options(n: usize, max: usize, per_edge_style: bool) -> Vec<Vec<(u8, bool)>> {
+/// every alternates file content for one node: ordered lists of <= 2 distinct targets (style filled in later)
+fn node_options(n: usize) -> Vec<Vec<(u8, bool)>> {
     let mut out = vec![vec![]];
     for a in 0..n as u8 {
-        for ra in [false, true] {
-            out.push(vec![(a, ra)]);
-        }
+        out.push(vec![(a, false)]);
     }
-    if max >= 2 {
-        for a in 0..n as u8 {
-            for b in 0..n as u8 {
-                if a == b {
-                    continue;
-                }
-                for ra in [false, true] {
-                    for rb in [false, true] {
-                        if !per_edge_style && ra != rb {
-                            continue;
-                        }
-                        out.push(vec![(a, ra), (b, rb)]);
-                    }
-                }
+    for a in 0..n as u8 {
+        for b in 0..n as u8 {
+            if a != b {
+                out.push(vec![(a, false), (b, false)]);
             }
         }
     }
     out
 }
 
-fn gen_graphs(n: usize, per_edge_style: bool, mut f: impl FnMut(Vec<Vec<(u8, bool)>>)) {
-    let opts = node_options(n, 2, per_edge_style);
+/// all graph shapes on n nodes in which every node is reachable from node 0
+fn gen_shapes(n: usize, mut f: impl FnMut(Vec<Vec<(u8, bool)>>)) {
+    let opts = node_options(n);
     let idx: Vec<usize> = (0..opts.len()).collect();
     vkit::enumerate::seqs(&idx, n, n, |sel| {
         let files: Vec<Vec<(u8, bool)>> = sel.iter().map(|&i| opts[i].clone()).collect();
@@ -174,11 +163,31 @@ fn gen_graphs(n: usize, per_edge_style: bool, mut f: impl FnMut(Vec<Vec<(u8, boo
     });
 }
 
-fn placements(n: usize, all: bool) -> Vec<Vec<u8>> {
+/// all assignments of absolute/relative to the entries: per entry (all 2^e) or the two uniform ones
+fn styles(shape: &[Vec<(u8, bool)>], per_edge: bool, mut f: impl FnMut(Vec<Vec<(u8, bool)>>)) {
+    let e: usize = shape.iter().map(Vec::len).sum();
+    let masks: Vec<u32> = if per_edge { (0..1u32 << e).collect() } else if e == 0 { vec![0] } else { vec![0, (1u32 << e) - 1] };
+    for m in masks {
+        let mut i = 0;
+        let mut g = shape.to_vec();
+        for file in g.iter_mut() {
+            for ent in file.iter_mut() {
+                ent.1 = m >> i & 1 == 1;
+                i += 1;
+            }
+        }
+        f(g);
+    }
+}
+
+/// depth vectors: all 3^n, or a fixed selection in which naming directories differ in depth from the opened directory
+fn placements(n: usize, how_many: usize) -> Vec<Vec<u8>> {
     let mut v = Vec::new();
     vkit::enumerate::seqs(&[1u8, 2, 3], n, n, |d| v.push(d.to_vec()));
-    if !all {
-        // root shallow / root deep / mixed: the naming directory differs in depth from the root in each of them
+    if how_many == 7 && n == 3 {
+        v.retain(|d| matches!(d.as_slice(), [1, 1, 1] | [1, 2, 3] | [3, 2, 1] | [2, 1, 3] | [2, 3, 1] | [3, 1, 2] | [1, 3, 2]));
+    }
+    if how_many == 6 && n == 4 {
         v.retain(|d| {
             matches!(d.as_slice(), [1, 2, 3, 1] | [3, 2, 1, 3] | [2, 1, 3, 2] | [1, 1, 1, 1] | [2, 3, 3, 1] | [3, 1, 2, 2])
         });
@@ -189,11 +198,13 @@ fn placements(n: usize, all: bool) -> Vec<Vec<u8>> {
 pub fn run(run: &'static Run) {
     let quick = run.quick();
     run.rule(
-        "graphs: N<=3 object dirs (thorough: N<=4), every node's info/alternates = ordered list of <=2 distinct targets among all N nodes \
-         (self-loops, back edges to the opened dir, cycles and diamonds included), all nodes reachable from the opened dir; every node placed at \
-         directory depth 1/2/3 (n, d/n, d/e/n): all 3^N placements for N<=3, 6 placements for N=4; every entry written absolute or relative to \
-         the naming directory independently (N=4: per file); decoration x4 (plain, ANSI-C quoted with an octal escape, comment+blank lines, both) for \
-         N<=2 (thorough: N<=3). non-trivial = at least one alternate is consulted or a cycle has to be reported",
+        "graphs: N<=4 object dirs, every node's info/alternates = ordered list of <=2 distinct targets among all N nodes (self-loops, links back \
+         to the opened dir, longer cycles and diamonds included), all nodes reachable from the opened dir; every node placed at directory depth \
+         1/2/3 (n, d/n, d/e/n). sub acyclic: all cycle-free shapes x every absolute/relative assignment per entry (quick N=4: all-absolute and \
+         all-relative) x all 3^N placements (quick N=4: 6 placements) x decoration {plain, ANSI-C quoted with an octal escape, comment+blank \
+         lines, both} (N=4: plain, thorough also both). sub cyclic: all shapes with a cycle, N<=3 (thorough N<=4), N<=2 every style and \
+         decoration, N>=3 all-absolute/all-relative, placements 27 (quick N=3: 7; N=4: 6). non-trivial = at least one alternate is consulted \
+         or a cycle has to be reported",
     );
     run.assume("git 2.39.5: `git count-objects -v` with GIT_OBJECT_DIRECTORY lists the alternates git consults in link order; probe showed git 2.39.5 resolves relative entries at every nesting depth against the naming directory (it does not ignore them), so git is the oracle on the whole cycle-free domain");
     run.assume("cycles (incl. self-loops and links back to the opened directory): git silently skips them, the property demands an error from gitoxide; the reference model decides");
@@ -219,10 +230,21 @@ pub fn run(run: &'static Run) {
     static GIT_CALLS: AtomicU64 = AtomicU64::new(0);
     static REL_NESTED: AtomicU64 = AtomicU64::new(0);
     static DIAMONDS: AtomicU64 = AtomicU64::new(0);
+    static T_BUILD: AtomicU64 = AtomicU64::new(0);
+    static T_GIT: AtomicU64 = AtomicU64::new(0);
+    static T_GIX: AtomicU64 = AtomicU64::new(0);
+    struct Timer(std::time::Instant);
+    impl Drop for Timer {
+        fn drop(&mut self) {
+            T_GIX.fetch_add(self.0.elapsed().as_micros() as u64, Ordering::Relaxed);
+        }
+    }
 
     let eval = move |c: &Case| -> Verdict {
+        let t0 = std::time::Instant::now();
         let scratch = vkit::scratch::Dir::new("c13");
         let dirs = build(c, scratch.path(), markers);
+        T_BUILD.fetch_add(t0.elapsed().as_micros() as u64, Ordering::Relaxed);
         let (expect, cycle, diamond) = model(c);
         let nested_rel_differs = (1..c.depths.len()).any(|k| c.depths[k] != c.depths[0] && c.files[k].iter().any(|e| e.1));
         if nested_rel_differs {
@@ -236,7 +258,9 @@ pub fn run(run: &'static Run) {
         if c.git {
             let mut cmd = vkit::git::cmd(&markers.tmpl);
             cmd.env("GIT_OBJECT_DIRECTORY", &dirs[0]).args(["count-objects", "-v"]);
+            let t0 = std::time::Instant::now();
             let out = vkit::git::run_cmd(cmd, None);
+            T_GIT.fetch_add(t0.elapsed().as_micros() as u64, Ordering::Relaxed);
             GIT_CALLS.fetch_add(1, Ordering::Relaxed);
             if !out.ok {
                 vkit::machinery!("git count-objects failed: {}", out.err_text());
@@ -249,6 +273,8 @@ pub fn run(run: &'static Run) {
             }
         }
 
+        let t0 = std::time::Instant::now();
+        let _g = Timer(t0);
         let cwd = Path::new("/");
         let res = gix_odb::alternate::resolve(dirs[0].clone(), cwd);
         if cycle {
@@ -307,56 +333,66 @@ pub fn run(run: &'static Run) {
         }
     };
 
-    // ---- N <= 2: everything ----
+    let nogit = std::env::var_os("VERIF_C13_NOGIT").is_some();
+    let uniform = |files: &Vec<Vec<(u8, bool)>>, rel: bool| files.iter().flatten().all(|e| e.1 == rel);
+    let is_cyclic = |shape: &Vec<Vec<(u8, bool)>>| model(&Case { depths: vec![1; shape.len()], files: shape.clone(), deco: 0, git: false }).1;
+    // ---- cycle-free graphs: every absolute/relative assignment, git as oracle ----
     run.sub_with(
-        "graphs-n2",
-        vkit::Opts::default().chunk(2048),
+        "acyclic",
+        vkit::Opts::default().chunk(1024),
         |emit| {
-            for n in 1..=2 {
-                gen_graphs(n, true, |files| {
-                    for depths in placements(n, true) {
-                        for deco in 0..4 {
-                            emit(Case { depths: depths.clone(), files: files.clone(), deco, git: true });
-                        }
+            for n in 1..=4usize {
+                let placements = placements(n, if n == 4 { run.pick(6, 81) } else { 27 });
+                gen_shapes(n, |shape| {
+                    if is_cyclic(&shape) {
+                        return;
                     }
+                    styles(&shape, n < 4 || !quick, |files| {
+                        for depths in &placements {
+                            for deco in [0u8, 3, 1, 2] {
+                                if deco != 0 && n == 4 && (quick || deco != 3) {
+                                    continue;
+                                }
+                                // one git process per graph is expensive: ask git where its answer can differ from the model's
+                                // assumptions (relative resolution, order, de-duplication), i.e. plain all-relative graphs (quick),
+                                // every plain graph with N<=3 and all-relative N=4 graphs at one mixed placement (thorough)
+                                let mixed = match n { 1 => true, 2 => depths[0] != depths[1], 3 => matches!(depths.as_slice(), [1, 2, 3] | [3, 1, 2] | [2, 3, 1]), _ => depths == &[2, 1, 3, 2] };
+                                let git = !nogit && deco == 0 && if quick { uniform(&files, true) && mixed && n <= 3 } else { n <= 3 || (uniform(&files, true) && mixed) };
+                                emit(Case { depths: depths.clone(), files: files.clone(), deco, git });
+                            }
+                        }
+                    });
                 });
             }
         },
         &eval,
     );
-    // ---- N = 3 ----
+    // ---- graphs with a cycle (self-loop, link back to the opened directory, longer cycles): the error must be reported ----
     run.sub_with(
-        "graphs-n3",
+        "cyclic",
         vkit::Opts::default().chunk(4096),
         |emit| {
-            gen_graphs(3, true, |files| {
-                let uniform = files.iter().flatten().all(|e| e.1) || files.iter().flatten().all(|e| !e.1);
-                for depths in placements(3, true) {
-                    for deco in 0..run.pick(1, 4) {
-                        let git = if quick { uniform && deco == 0 } else { deco == 0 || uniform };
-                        emit(Case { depths: depths.clone(), files: files.clone(), deco, git });
+            for n in 1..=run.pick(3usize, 4) {
+                let placements = placements(n, match n { 4 => 6, 3 => run.pick(7, 27), _ => 27 });
+                gen_shapes(n, |shape| {
+                    if !is_cyclic(&shape) {
+                        return;
                     }
-                }
-            });
+                    styles(&shape, n <= 2, |files| {
+                        for depths in &placements {
+                            for deco in 0..(if n <= 2 { 4 } else { 1 }) {
+                                emit(Case { depths: depths.clone(), files: files.clone(), deco, git: false });
+                            }
+                        }
+                    });
+                });
+            }
         },
         &eval,
     );
-    // ---- N = 4 (thorough) ----
-    if !quick {
-        run.sub_with(
-            "graphs-n4",
-            vkit::Opts::default().chunk(4096),
-            |emit| {
-                gen_graphs(4, false, |files| {
-                    let all_rel = files.iter().flatten().all(|e| e.1);
-                    for depths in placements(4, false) {
-                        emit(Case { depths: depths.clone(), files: files.clone(), deco: 0, git: all_rel && depths != [1, 1, 1, 1] });
-                    }
-                });
-            },
-            &eval,
-        );
-    }
+    run.cov("t_build_us", T_BUILD.load(Ordering::Relaxed));
+    run.cov("t_git_us", T_GIT.load(Ordering::Relaxed));
+    run.cov("t_gix_us", T_GIX.load(Ordering::Relaxed));
     run.cov("git_calls", GIT_CALLS.load(Ordering::Relaxed));
     run.cov("cases_with_relative_entry_in_nested_dir_at_other_depth", REL_NESTED.load(Ordering::Relaxed));
     run.cov("diamond_cases", DIAMONDS.load(Ordering::Relaxed));
